@@ -325,6 +325,20 @@ def main():
         lines += ["/-- atomic accesses to `free_cursor` on the `&self` paths of `Entities` -/",
                   "def reserveSites : List Site := ["]
         lines += [",\n".join("  " + lean_site(f, m, o, r) for f, m, o, r in esites), "]", ""]
+        # ---- world.rs: Extend / FromIterator are thin loops over `spawn` (the trace desugars them so)
+        wsrc = strip_comments(open(os.path.join(repo, "src/world.rs")).read())
+        def norm_body(sig):
+            b = fn_body(wsrc, sig)
+            return [" ".join(x.split()) for x in re.split(r"[;{}]", b) if x.strip()]
+        ext = norm_body(r"fn\s+extend\s*<\s*T\s*>\s*\(\s*&mut\s+self\s*,\s*iter\s*:\s*T\s*\)\s*where\s+T\s*:\s*IntoIterator<Item\s*=\s*A>\s*,?\s*\{")
+        fri = norm_body(r"fn\s+from_iter\s*<\s*I\s*:\s*IntoIterator<Item\s*=\s*A>\s*>\s*\(\s*iter\s*:\s*I\s*\)\s*->\s*Self\s*\{")
+        status["fragments"]["extend"] = ext
+        status["fragments"]["from_iter"] = fri
+        q = lambda xs: "[" + ", ".join(json.dumps(x) for x in xs) + "]"
+        lines += ["/-- statements of `<World as Extend<A>>::extend` -/",
+                  f"def extendBody : List String := {q(ext)}", "",
+                  "/-- statements of `<World as FromIterator<A>>::from_iter` -/",
+                  f"def fromIterBody : List String := {q(fri)}", ""]
     except (ParseError, OSError, KeyError, IndexError) as ex:
         status = {"status": "unavailable", "detail": str(ex)}
         print(json.dumps(status))
